@@ -185,5 +185,6 @@ RULES = [
     ("C14.worker", rule_worker),
     ("C14.cmp", rule_cmp),
     ("C14.handover", rule_requeue_survives),
+    ("C14.parked", lambda c, r: pat.shared(__import__("sa.rules.c16", fromlist=["x"]).rule_pause, "C14.parked", lambda x: "parks-empty-handed" in x["instance"] and "workqueue" not in x["instance"])(c, r)),   # the worker callback must not sit in a private batch of a helper parked for fork
 ]
 FLOORS = {}
